@@ -241,8 +241,12 @@ def run(ctx):
                       f"{label} " + (f"raised {r}" if r else "returned an object") + f" on the {attempt} request", s_pt)
 
     # ---- R3 pickling restores the same object; R4 change_table -----------------------------------
+    # (each atom is restored twice, and the whole series is run in both orders: a restorer that remembers what it handed out
+    # under the pickled numbers alone would hand H[1] out for the proton, or the other way round)
     atoms = {"element": Fe, "isotope": fe56, "D": D, "ion of element": sub(I.getattr(Fe, "ion"), 2), "ion of isotope": sub(I.getattr(fe56, "ion"), 3),
-             "ion of D": sub(I.getattr(D, "ion"), 1), "neutron": sub(T, 0), "negative ion": sub(I.getattr(Fe, "ion"), -2)}
+             "ion of D": sub(I.getattr(D, "ion"), 1), "neutron": sub(T, 0), "negative ion": sub(I.getattr(Fe, "ion"), -2),
+             # atoms whose numbers coincide across kinds: H[1] (Z=1, A=1) and the proton H{+} (Z=1, charge 1); Fe[2]-like clashes
+             "H[1]": sub(H, 1), "proton": sub(I.getattr(H, "ion"), 1), "ion of H[1]": sub(I.getattr(sub(H, 1), "ion"), 1)}
     PT = I.get_class("core.PeriodicTable")
     T2 = I.instantiate(PT, ["other"], {}, name="T2", open_attrs=())
     # a later table is built from the same element data as the first (nothing accumulates in the module-level tables)
@@ -258,6 +262,16 @@ def run(ctx):
     ct = I.global_name("core", "change_table")
     ident = lambda a: (I.getattr(a, "number"), I.getattr(a, "isotope") if I.call(I.global_name("core", "isisotope"), [a], {}) else 0,
                        I.getattr(a, "charge"), I.getattr(a, "table"))
+    # a second pass over the atoms in the reverse order (restorers must not depend on what was restored before)
+    for label, a in reversed(list(atoms.items())):
+        red_ = call(a, "__reduce__")
+        if isinstance(red_, tuple) and len(red_) == 2:
+            try:
+                back_ = I.call(red_[0], list(red_[1]), {})
+            except SymRaise as exc:
+                back_ = f"raises {exc.exc}"
+            ctx.check(back_ is a, "R3", f"{label}: restored after the atoms that follow it in the list were restored: the same object",
+                      f"restores {back_!r} ({ident(back_) if isinstance(back_, SymObj) else back_}) instead of {ident(a)}", fsite(ctx, "core._make_isotope_ion"))
     for label, a in atoms.items():
         red = call(a, "__reduce__")
         ok = isinstance(red, tuple) and len(red) == 2
@@ -348,7 +362,7 @@ def run(ctx):
         and ns.get("T") is Tt and set(names) == set(ns)
     ctx.check(okd, "R2", "define_elements exports every symbol and name (and D, T) bound to the table's own objects", "mismatch",
               fsite(ctx, "core.define_elements"), sample={"names": len(ns)})
-    ctx.floor("R2", 50); ctx.floor("R3", 36); ctx.floor("R4", 16); ctx.floor("R5", 2)
+    ctx.floor("R2", 50); ctx.floor("R3", 50); ctx.floor("R4", 16); ctx.floor("R5", 2)
 
     # ---- R6 element_base ------------------------------------------------------------------------------
     zs = sorted(base)
